@@ -296,6 +296,57 @@ pub fn run(e: &Engine) {
         check_crc,
     );
 
+    // long inputs (fast path over thousands of 16-byte blocks) at every slice alignment
+    let longs: Vec<(usize, usize)> = [4095usize, 4096, 4097, 65_535, 65_536, 65_537, (1 << 20) + 3].into_iter().flat_map(|l| (0..16usize).step_by(5).map(move |off| (l, off))).collect();
+    e.run_list("crc-long-inputs-x-alignments", &longs, |(l, off)| json!({"len": l, "offset": off}), |(l, off), rec| {
+        rec.eval();
+        let buf: Vec<u8> = (0..(l + off)).map(|i| crate::engine::mix(seed, i as u64 / 7) as u8).collect();
+        let data = &buf[*off..];
+        let want = crcref::masked(data);
+        let got = fst::raw::verif::masked_crc32c(&[data]);
+        vensure!(got == want, "crc-differential", "masked CRC-32C of {} bytes (slice offset {}) is {:#010x}, the bitwise reference gives {:#010x}", l, off, got, want);
+        let mid = l / 2 + 1;
+        let got2 = fst::raw::verif::masked_crc32c(&[&data[..mid], &data[mid..]]);
+        vensure!(got2 == want, "crc-differential", "masked CRC-32C of {} bytes in two chunks differs from the reference", l);
+        rec.nontrivial(H::new().u(*l as u64).u(*off as u64).get());
+        rec.class("crc_long_input");
+        Ok(())
+    });
+    // corruption of large files: sampled positions incl. beyond 2^16 / 2^24 and the last blocks
+    let bigfiles: Vec<gen::Recipe> = vec![
+        gen::Recipe { kind: 1, n: 40_000, seed: e.seed ^ 0x81, fanout: 5, keylen: 12, values: 2 },
+        gen::Recipe { kind: 2, n: 120_000, seed: e.seed ^ 0x82, fanout: 4, keylen: 14, values: 1 },
+        gen::Recipe { kind: 1, n: e.tier.pick(2_300_000, 3_000_000), seed: e.seed ^ 0x16, fanout: 16, keylen: 12, values: 2 },
+    ];
+    e.run_list("large-files-sampled-corruption", &bigfiles, |r| r.to_json(), |r, rec| {
+        let pairs = r.pairs();
+        let orig = gen::build_plain(&pairs, false).map_err(|m| Fail::new("build-error", m))?;
+        drop(pairs);
+        let n = orig.len();
+        rec.class(if n > 1 << 24 { "corrupted_file_over_16MiB" } else if n > 1 << 16 { "corrupted_file_over_64KiB" } else { "corrupted_file_small" });
+        let f = fst::raw::Fst::new(&orig[..]).map_err(|e| Fail::new("open-failed", format!("{:?}", e)))?;
+        if let Err(e) = f.verify() {
+            vfail!("verify-built", "verify() fails on a freshly built {}-byte FST: {:?}", n, e);
+        }
+        let mut m = orig.clone();
+        let mut positions: Vec<usize> = vec![16, 17, 255, 256, 4095, 4096, 65_535, 65_536, 65_537, n - 5, n - 6, n - 21, n - 22, n - 37, n / 2, n / 3];
+        positions.extend([(1usize << 24) - 1, 1 << 24, (1 << 24) + 1].into_iter().filter(|&p| p < n - 4));
+        for j in 0..e.tier.pick(40u64, 400) {
+            positions.push((crate::engine::mix(r.seed, j) % (n as u64 - 4)) as usize);
+        }
+        for pos in positions {
+            if pos >= n {
+                continue;
+            }
+            let x = 1u8 << (pos % 8);
+            m[pos] ^= x;
+            let res = judge(&orig, &m, rec, &|| format!("{}-byte file, offset {} xor {:#04x}", n, pos, x));
+            m[pos] ^= x;
+            res?;
+            rec.nontrivial(H::new().u(r.seed).u(pos as u64).get());
+        }
+        Ok(())
+    });
     // (3) exhaustive single-byte corruption of small FSTs
     let smalls: Vec<FstInput> = vec![
         FstInput::new(gen::Front::RawInsert, None, vec![]),
@@ -359,7 +410,7 @@ pub fn run(e: &Engine) {
     if e.tier == crate::engine::Tier::Thorough {
         crate::fuzzrun::campaign(e, "mutate_verify", 400_000, 700);
     }
-    for cls in ["mutation_caught_by_verify", "mutation_refused_at_open", "mutation_flips_version(checksum_missing)", "crc_via_public_api", "crc_cut_inside_16_byte_block", "built_fst_verified", "checksum_field_special_value"] {
+    for cls in ["mutation_caught_by_verify", "mutation_refused_at_open", "mutation_flips_version(checksum_missing)", "crc_via_public_api", "crc_cut_inside_16_byte_block", "built_fst_verified", "checksum_field_special_value", "crc_long_input", "corrupted_file_over_64KiB", "corrupted_file_over_16MiB"] {
         e.require_class(cls, 1);
     }
 }
